@@ -40,6 +40,20 @@ type handler struct {
 	c           *vlib.Check
 	builds      int64
 	buildBudget int64
+	// builds of steps whose pre-state holds a b1 body (locals shadowing the template's reserved imports):
+	// a budget of their own, so that "the kept code still compiles" is decided for them in every run
+	buildsB1 int64
+}
+
+func hasBody(pre *projgen.PState, tok string) bool {
+	for _, ms := range pre.Meth {
+		for _, m := range ms {
+			if m.Body == tok {
+				return true
+			}
+		}
+	}
+	return false
 }
 
 func (h *handler) RunGenerate(c *projgen.Conc, pre *projgen.PState, path []*projgen.REdge) projgen.GenOutcome {
@@ -57,7 +71,10 @@ func (h *handler) WantBuild(pre *projgen.PState) bool {
 			return false
 		}
 	}
-	return atomic.AddInt64(&h.builds, 1) <= h.buildBudget
+	if hasBody(pre, "b1") {
+		return atomic.AddInt64(&h.buildsB1, 1) <= h.buildBudget/2+5
+	}
+	return atomic.AddInt64(&h.builds, 1) <= h.buildBudget/2
 }
 
 func (h *handler) AfterGenerate(r *projgen.Replayer, c *projgen.Conc, rec *projgen.StepRec) {}
